@@ -265,6 +265,10 @@ class FileHandle(ExtObj):
     def m_close(self, ex):
         self.exit(ex)
 
+    def iter_seq(self, ex):
+        """iterating a text file yields its lines (A-fs)"""
+        return self.m_readlines(ex)
+
     def enter(self, ex):
         return self
 
